@@ -47,6 +47,10 @@ fn time_class(t_sign: i64, expires: u64, now_before: i64, now_after: i64) -> Tim
 }
 
 pub fn judge(rt: &tokio::runtime::Runtime, r: &mut Report, case: &Case) {
+    judge_with_session_check(r, |rep| judge_inner(rt, rep, case));
+}
+
+fn judge_inner(rt: &tokio::runtime::Runtime, r: &mut Report, case: &Case) {
     let secret_of = |k: &str| case.secrets.get(k).cloned();
     let facts = v4_verify_presigned(&case.req, &secret_of);
     if case.req.build().is_none() {
@@ -358,6 +362,10 @@ pub fn run(ctx: &RunCtx) -> i32 {
     let total = par_run(ctx.workers, n_base.div_ceil(per), |j, r| {
         let rt = new_runtime();
         let mut g = Rng::new(derive_seed(ctx.seed, "C06", j));
+        // every other job sends all its requests through one reused service instance per configuration
+        if j % 2 == 1 {
+            session_begin();
+        }
         for _ in 0..per {
             for (delta, expires) in time_placements(&mut g) {
                 // reference presigner
@@ -404,6 +412,7 @@ pub fn run(ctx: &RunCtx) -> i32 {
                 }
             }
         }
+        r.count("requests_served_by_a_reused_service_instance", session_end());
     });
     finish(ctx, &meta, &total)
 }
